@@ -180,6 +180,13 @@ def explore(spec, report, max_depth, max_states=None, sig_base=None, stop_on_fir
                 report_mismatch(Mismatch("diverges", "step budget exceeded"), init, hist, op)
                 spec.cleanup(impl)
                 continue
+            except Exception as e:   # noqa -- the library (or the spec) raised outside observe()
+                tb = traceback.extract_tb(e.__traceback__)
+                where = "%s:%d" % (os.path.basename(tb[-1].filename), tb[-1].lineno) if tb else "?"
+                report_mismatch(Mismatch("unexpected-exception", "%s: %s at %s" % (type(e).__name__, e, where),
+                                         {"exc": type(e).__name__}), init, hist, op)
+                spec.cleanup(impl)
+                continue
             k = spec.key(impl, model2)
             if k not in seen:
                 seen.add(k)
